@@ -1,9 +1,70 @@
 import Driver.Util
-open Lean
+import Torf.Spec.Verify
+open Lean Torf Torf.Missing Torf.Verify
 namespace Driver.C02
 
-/-- ops of property C02: `c02.<name>` -/
-def handle (op : String) (_j : Json) : Except String Json :=
-  throw s!"unknown op {op}"
+def flipMark : Nat := 549755813888   -- 2^39: element (file, off) whose byte was changed
+
+/-- disk state per file: "ok" | "missing" | n (actual size); `flips` = [[file, offset], …] -/
+def mkDisk (sizes : List Nat) (states : List Json) (flips : List (Nat × Nat)) :
+    Except String (List (Option (List Nat))) :=
+  (sizes.zip states).zipIdx.mapM fun ((sz, st), i) => do
+    let n ← match st with
+      | .str "ok" => pure (some sz)
+      | .str "missing" => pure none
+      | .num n => pure (some n.mantissa.toNat)
+      | _ => throw "bad disk state"
+    return n.map fun n => (List.range n).map fun k =>
+      if flips.contains (i, k) then i * elemBase + flipMark + k else i * elemBase + k
+
+def errJson : VErr → Json
+  | .read f => jobj [("kind", "read"), ("file", jnat f)]
+  | .size f => jobj [("kind", "size"), ("file", jnat f)]
+  | .content p fs => jobj [("kind", "content"), ("piece", jnat p), ("files", jnats fs)]
+  | .isDir => jobj [("kind", "isDir")]
+  | .notDir => jobj [("kind", "notDir")]
+  | .internal => jobj [("kind", "internal")]
+
+def resJson : VResult → Json
+  | .ok b => jobj [("ok", jbool b)]
+  | .error e => jobj [("error", errJson e)]
+
+def callJson (c : CbCall (List Nat)) : Json :=
+  jobj [("done", jnat c.done), ("piece", jnat c.piece), ("hash", jopt pieceJson c.hash),
+        ("exc", jopt errJson c.exc)]
+
+/-- op `c02.verify`: {L, sizes, disk, flips, single, pathIsDir}; the stored hashes are those of
+    the undamaged content; H is injective (the piece itself). -/
+def verify (j : Json) : Except String Json := do
+  let L ← getNat j "L"
+  let sizes ← getNats j "sizes"
+  let states ← getArr j "disk"
+  let flipsJ ← getArr j "flips"
+  let flips ← flipsJ.mapM fun f => do
+    let a ← f.getArr?
+    if h : a.size = 2 then return ((← a[0].getNat?), (← a[1].getNat?)) else throw "flip must be a pair"
+  let single ← getBool j "single"
+  let pathIsDir ← getBool j "pathIsDir"
+  let disk ← mkDisk sizes states flips
+  let orig := mkFiles sizes
+  let stored : List (List Nat) := chunks L orig.flatten
+  let H : List Nat → List Nat := id
+  let (r0, _) := verifySeq H L sizes disk stored false single pathIsDir
+  let (r1, calls) := verifySeq H L sizes disk stored true single pathIsDir
+  return jobj [
+    ("nocb", resJson r0), ("cb", resJson r1), ("calls", jarr (calls.map callJson)),
+    ("specOk", jbool (SpecOk H L sizes disk stored)),
+    ("bad", jarr ((badFiles sizes disk).map fun (k, e) => jarr [jnat k, jstr (match e with | .read => "read" | .size => "size")])),
+    ("mismatches", jnats (mismatches H L sizes disk stored)),
+    ("overlapping", jarr ((List.range stored.length).map fun i => jnats (overlapping L sizes i))),
+    ("pieces", jnat stored.length),
+    ("mayBlank", jarr ((List.range stored.length).map fun i => jbool (mayBlank L sizes disk i))),
+    ("hyp", jbool (L > 0 && NoBadEmpty sizes disk)),
+    ("d10a", jbool (BadEmptyAtBoundary L sizes disk))]
+
+def handle (op : String) (j : Json) : Except String Json :=
+  match op with
+  | "c02.verify" => verify j
+  | _ => throw s!"unknown op {op}"
 
 end Driver.C02
